@@ -237,10 +237,35 @@ fn variant(e: Expr, v: u64, h: u64) -> Expr {
         6 => Expr::bin(Op::Sub, Expr::Call("floor", vec![e.clone()]), Expr::Call("ceil", vec![e])),
         7 => Expr::Cast(Box::new(Expr::bin(Op::Add, Expr::Paren(Box::new(Expr::Cast(Box::new(e), cm))), Expr::Qty(Lit::int(1), m.clone()))), m),
         8 => Expr::bin(Op::Div, Expr::Paren(Box::new(Expr::Cast(Box::new(e.clone()), m))), Expr::Paren(Box::new(Expr::Cast(Box::new(Expr::num(2)), s)))),
-        _ => Expr::Pow(Box::new(Expr::Paren(Box::new(Expr::Cast(Box::new(e), m)))), 2),
+        9 => Expr::Pow(Box::new(Expr::Paren(Box::new(Expr::Cast(Box::new(e), m)))), 2),
+        // a digits argument of three digits (nothing may glue it to the first argument across the comma)
+        10 => Expr::Call("round", vec![e, Expr::num(100 + (h % 900) as i64)]),
+        _ => Expr::bin(Op::Add, Expr::Call("round", vec![Expr::num(7), Expr::num(100 + (h % 900) as i64)]), Expr::Call("round", vec![e, Expr::num(100 + ((h >> 10) % 900) as i64)])),
     }
 }
-const VARIANTS: u64 = 10;
+const VARIANTS: u64 = 12;
+
+/// Long flat expressions: 30-130 terms (literals, calls, parenthesised groups) joined by + - *, so that
+/// whatever the parser counts or accumulates per term (nesting depth, stack entries) has room to drift.
+fn long_flat() -> impl Strategy<Value = RandCase> {
+    let term = prop_oneof![
+        3 => (1i64..=9).prop_map(Expr::num),
+        3 => (1i64..=9).prop_map(|k| Expr::Call("round", vec![Expr::num(k)])),
+        1 => (1i64..=9).prop_map(|k| Expr::Call("floor", vec![Expr::Num(Lit::from_text(&format!("{}.5", k)))])),
+        1 => (1i64..=9, -2i64..=2).prop_map(|(k, n)| Expr::Call("round", vec![Expr::num(k), Expr::num(n)])),
+        2 => (1i64..=9, 1i64..=9).prop_map(|(a, b)| Expr::Paren(Box::new(Expr::bin(Op::Add, Expr::num(a), Expr::num(b))))),
+        1 => (1i64..=9, 1i64..=9).prop_map(|(a, b)| Expr::Paren(Box::new(Expr::Paren(Box::new(Expr::bin(Op::Mul, Expr::num(a), Expr::num(b))))))),
+    ];
+    (prop::collection::vec((term, prop_oneof![4 => Just(Op::Add), 3 => Just(Op::Sub), 1 => Just(Op::Mul)]), 30..=130), any::<u64>(), prop_oneof![Just(0u64), Just(1), Just(5), Just(6)]).prop_map(|(terms, h, r)| {
+        let mut it = terms.into_iter();
+        let (first, _) = it.next().unwrap();
+        let mut e = first;
+        for (t, op) in it {
+            e = Expr::bin(op, e, t);
+        }
+        RandCase { expr: e, r, h }
+    })
+}
 
 #[derive(Clone, Debug)]
 struct RandCase {
@@ -261,7 +286,7 @@ fn rand_case(depth: u32) -> impl Strategy<Value = RandCase> {
 }
 
 pub fn run_check(ctx: &Ctx) {
-    ctx.set_rule("all operator sequences over + - * / ^ up to the stated length x all binary tree shapes (Catalan), operands from fixed pools, each AST rendered in 32 ways (minimal / full / two redundant parenthesisations x 8 blank layouts incl. no blanks where allowed, double blanks, tabs, leading/trailing blanks; the random layouts spell the power operator `**` half of the time); plus `to`/round/floor/ceil variants and random deeper trees; oracle = reference evaluation of the AST; non-trivial = operators of >=2 precedence levels, or a grouped right operand, or nested parentheses, or a non-canonical rendering; distinct by query text");
+    ctx.set_rule("all operator sequences over + - * / ^ up to the stated length x all binary tree shapes (Catalan), operands from fixed pools, each AST rendered in 32 ways (minimal / full / two redundant parenthesisations x 8 blank layouts incl. no blanks where allowed, double blanks, tabs, leading/trailing blanks; the random layouts spell the power operator `**` half of the time); plus `to`/round/floor/ceil variants (also with three-digit digits arguments), random deeper trees and long flat expressions of 30-130 terms mixing calls and parenthesised groups; oracle = reference evaluation of the AST; non-trivial = operators of >=2 precedence levels, or a grouped right operand, or nested parentheses, or a non-canonical rendering; distinct by query text");
     ctx.assume("blank policy: + - and `to` always have a blank on both sides; no blank is omitted next to a unit or phrase (a blank next to * or / ends a unit expression in this grammar)");
     let corpus: Vec<(String, QCase)> = load_corpus("C06");
     let cases: Vec<QCase> = corpus.into_iter().map(|c| c.1).collect();
@@ -312,6 +337,19 @@ pub fn run_check(ctx: &Ctx) {
         "random-deeper",
         || rand_case(depth),
         n,
+        |c| match make_case(&c.expr, c.r, c.h) {
+            Some(q) => judge(shared_db(), &q),
+            None => CaseReport::discard("", "reference-unspecified"),
+        },
+        |c| match make_case(&c.expr, c.r, c.h) {
+            Some(q) => to_json(&q),
+            None => Value::Null,
+        },
+    );
+    ctx.run_gen(
+        "long-flat",
+        long_flat,
+        n / 40,
         |c| match make_case(&c.expr, c.r, c.h) {
             Some(q) => judge(shared_db(), &q),
             None => CaseReport::discard("", "reference-unspecified"),
